@@ -225,7 +225,9 @@ Inductive label :=
 | LRCommit                            (* restore: commit_changes *)
 | LRFail                              (* restore: any exception -> rollback_changes *)
 | LGcRemove (k : key)                 (* gc: rmtree of an unrecorded version directory *)
-| LCleanAll                           (* clean: rmtree(cond-out) *)
+| LCleanAll                           (* clean: rmtree(cond-out) has removed everything *)
+| LCleanIndex                         (* clean: the version index file is unlinked (first, since /repo e97eb39) *)
+| LCleanDir (k : key)                 (* clean: rmtree has removed one version directory (in the file system's order) *)
 | LEnd                                (* the cond process exits *)
 | LCrash.                             (* the cond process is killed *)
 
@@ -463,6 +465,25 @@ Definition do_clean_all (s : state) : state :=
   | _ => s
   end.
 
+(* since /repo e97eb39 `cond clean` unlinks version_index.sqlite before shutil.rmtree(cond-out): the
+   directories go one by one, in whatever order the file system lists them, AFTER the rows are gone *)
+Definition do_clean_index (s : state) : state :=
+  match s_proc s with
+  | Some PClean => if any_live (s_kids s) then s else with_rows [] s
+  | _ => s
+  end.
+
+Definition do_clean_dir (k : key) (s : state) : state :=
+  match s_proc s with
+  | Some PClean =>
+    if any_live (s_kids s) then s
+    else match s_rows s with
+         | [] => with_dirs (remove_key k (s_dirs s)) s
+         | _ => s
+         end
+  | _ => s
+  end.
+
 Definition apply_gen (alloc : allocator) (clock : nat -> N) (l : label) (s : state) : state :=
   match l with
   | LBegin c => do_begin c s
@@ -485,6 +506,8 @@ Definition apply_gen (alloc : allocator) (clock : nat -> N) (l : label) (s : sta
   | LRFail => do_rfail s
   | LGcRemove k => do_gc_remove k s
   | LCleanAll => do_clean_all s
+  | LCleanIndex => do_clean_index s
+  | LCleanDir k => do_clean_dir k s
   | LEnd => stop s
   | LCrash => stop s
   end.
@@ -547,7 +570,7 @@ Definition command_labels (s : state) (c : command) : list label :=
   | KRestore a => restore_labels a
   | KGc => gc_labels s
   | KArchive => [LBegin CArchive; LEnd]
-  | KClean => [LBegin CClean; LCleanAll; LEnd]
+  | KClean => [LBegin CClean; LCleanIndex] ++ map (fun kd => LCleanDir (fst kd)) (s_dirs s) ++ [LCleanAll; LEnd]
   end.
 
 (* every task process still alive runs to its end *)
